@@ -10,6 +10,12 @@
 // The store is written by Arc's own ingest path (ingest.ArrowBuffer -> hour directories); compacted day
 // files are produced from those hour files with the same DuckDB COPY shape compaction uses.
 //
+// Besides the WHERE grammar on the three base measurements there is a window grid (see "window grid"
+// below): three consecutive days, every assignment of {hour directories, day-level compacted file} to
+// them as a separate measurement, and every window between the instants of a small day x time-of-day grid
+// in several comparison forms; for these the unpruned result is additionally compared with the rows the
+// fixture puts in the window.
+//
 // Every raw difference is minimised (template -> plain, measurement -> first failing layout, boolean
 // structure -> sub-expressions, atoms -> first failing atom of a canonical order) while the same witness
 // (a lost-row tag) keeps failing, and reported under the class signature
@@ -108,17 +114,123 @@ type measurement struct {
 	Name   string
 	Layout string
 	IDBase int
+	Grid   string // window-grid measurements: storage state of grid day D0,D1,D2 (H hour dirs, C day file, M day file + one hour dir)
 }
 
 var measurements = []measurement{
-	{"cpu", "hour-dirs", 100},
-	{"mem", "day-files", 200},
-	{"disk", "day-file+hour-dirs", 300},
+	{"cpu", "hour-dirs", 100, ""},
+	{"mem", "day-files", 200, ""},
+	{"disk", "day-file+hour-dirs", 300, ""},
 }
 
 var tagOfID = map[int64]string{}
 
+// ---- window grid: consecutive days in mixed storage states x enumerated time windows ---------------
+//
+// Three consecutive calendar days D0..D2 (2020-02-28, the leap day, 2020-03-01: a month boundary lies
+// inside) hold the same rows in every grid measurement; the measurements differ only in how each day is
+// stored: H = hour directories, C = compacted into one day-level file (hour directories gone),
+// M (thorough) = day-level file plus one hour directory that has not been compacted yet. Every assignment
+// of states to the three days is a layout ({H,C}^3 = 8 quick, {H,C,M}^3 = 27 thorough), so "later day
+// compacted, earlier not" and the reverse are both present for every pair of days.
+//
+// Window bounds are taken from the instants {D0,D1,D2} x times of day {00:00, 03:30, 22:00} (thorough: +
+// 12:00) plus D3 00:00; every ordered pair (start < end) is a window: inside one day, across one, two and
+// three midnights, with the end's time-of-day before / equal to / after the start's, starting and/or ending
+// exactly at 00:00, on an hour boundary that is not midnight (22:00) and inside an hour (03:30). Rows sit 15
+// minutes before and after every bound instant, so every partition a window may or may not read next to
+// its bounds holds a row; no row sits exactly on a bound (an inclusive end exactly on a partition boundary
+// is the F5 class, covered by the 2020-01 cluster).
+var (
+	gridDays         = []string{"2020-02-28", "2020-02-29", "2020-03-01"}
+	gridEndDay       = "2020-03-02"
+	gridToD          = []time.Duration{0, 3*time.Hour + 30*time.Minute, 22 * time.Hour}
+	gridToDThorough  = []time.Duration{12 * time.Hour} // windows using these sort after all quick windows
+	gridLeftoverHour = "22"                            // the hour directory state M keeps next to the day file
+
+	gridListing  = map[string][]string{} // grid measurement -> partition directories holding a file
+	gridInstants []time.Time             // bounds, ascending
+	gridRows     []anchor                // identical in every grid measurement
+	gridFirst    int                     // index of the first grid measurement
+	gridExtra    = map[int64]bool{}      // instants that exist in the thorough tier only
+)
+
+func gridDay(i int) time.Time {
+	d := gridEndDay
+	if i < len(gridDays) {
+		d = gridDays[i]
+	}
+	return utc(d + " 00:00:00")
+}
+
+func buildGrid(full bool) {
+	for i := range gridDays {
+		for _, tod := range gridToD {
+			gridInstants = append(gridInstants, gridDay(i).Add(tod))
+		}
+		if full {
+			for _, tod := range gridToDThorough {
+				gridInstants = append(gridInstants, gridDay(i).Add(tod))
+				gridExtra[gridDay(i).Add(tod).Unix()] = true
+			}
+		}
+	}
+	gridInstants = append(gridInstants, gridDay(len(gridDays)))
+	sort.Slice(gridInstants, func(i, j int) bool { return gridInstants[i].Before(gridInstants[j]) })
+	lo, hi := gridInstants[0], gridInstants[len(gridInstants)-1]
+	seen := map[int64]bool{}
+	for _, b := range gridInstants {
+		for _, t := range []time.Time{b.Add(-15 * time.Minute), b.Add(15 * time.Minute)} {
+			if t.Before(lo) || !t.Before(hi) || seen[t.Unix()] {
+				continue
+			}
+			seen[t.Unix()] = true
+			di := int(t.Sub(lo) / (24 * time.Hour))
+			gridRows = append(gridRows, anchor{fmt.Sprintf("grid-d%d", di), isoStr(t), t})
+		}
+	}
+	sort.Slice(gridRows, func(i, j int) bool { return gridRows[i].T.Before(gridRows[j].T) })
+	states := "HC"
+	if full {
+		states = "HCM"
+	}
+	var layouts []string
+	var rec func(prefix string)
+	rec = func(prefix string) {
+		if len(prefix) == len(gridDays) {
+			layouts = append(layouts, prefix)
+			return
+		}
+		for _, s := range states {
+			rec(prefix + string(s))
+		}
+	}
+	rec("")
+	// canonical order (also the order the minimiser tries layouts in): no M before any M, then fewer
+	// non-H days first, then lexicographic. The quick layouts are a prefix of the thorough ones.
+	weight := func(l string) int {
+		return strings.Count(l, "M")*100 + (len(l)-strings.Count(l, "H"))*10
+	}
+	sort.SliceStable(layouts, func(i, j int) bool {
+		if a, b := weight(layouts[i]), weight(layouts[j]); a != b {
+			return a < b
+		}
+		return layouts[i] < layouts[j]
+	})
+	gridFirst = len(measurements)
+	for i, l := range layouts {
+		measurements = append(measurements, measurement{"g_" + strings.ToLower(l), "grid-" + l, 1000 + 100*i, l})
+	}
+}
+
 func isoStr(t time.Time) string { return t.Format("2006-01-02 15:04:05") }
+
+func rowsOf(m measurement) []anchor {
+	if m.Grid != "" {
+		return gridRows
+	}
+	return anchors
+}
 
 // buildStore writes the three measurements through Arc's real ingest buffer, then compacts days for the
 // day-file layouts. event_time / uptime are ISO strings of OTHER anchors (a rotation), so predicates on
@@ -130,10 +242,11 @@ func buildStore(root string) []string {
 	cfg := &config.IngestConfig{MaxBufferSize: 1_000_000, MaxBufferAgeMS: 3_600_000, Compression: "snappy", FlushWorkers: 1,
 		FlushQueueSize: 16, ShardCount: 1, FlushTimeoutSeconds: 60, WriteStatistics: true}
 	buf := ingest.NewArrowBuffer(cfg, be, lg)
-	n := len(anchors)
 	for _, m := range measurements {
 		var ts []int64
 		var id, k, host, v, et, ut []interface{}
+		anchors := rowsOf(m)
+		n := len(anchors)
 		for i, a := range anchors {
 			ts = append(ts, a.T.UnixMicro())
 			id = append(id, int64(m.IDBase+i))
@@ -211,15 +324,43 @@ func buildStore(root string) []string {
 			compactDay("disk", d, sub)
 		}
 	}
+	// window-grid measurements: day i is left as hour directories (H), compacted entirely (C), or compacted
+	// except for one hour directory (M)
+	for _, m := range measurements {
+		for di, st := range m.Grid {
+			if st == 'H' {
+				continue
+			}
+			hs := map[string]bool{}
+			for _, r := range gridRows {
+				if r.T.Format("2006-01-02") == gridDays[di] && !(st == 'M' && r.T.Format("15") == gridLeftoverHour) {
+					hs[r.T.Format("15")] = true
+				}
+			}
+			var hours []string
+			for h := range hs {
+				hours = append(hours, h)
+			}
+			sort.Strings(hours)
+			compactDay(m.Name, strings.ReplaceAll(gridDays[di], "-", "/"), hours)
+		}
+	}
 	var listing []string
 	filepath.WalkDir(root, func(p string, d os.DirEntry, err error) error {
 		if err == nil && !d.IsDir() && strings.HasSuffix(p, ".parquet") {
 			rel, _ := filepath.Rel(root, p)
+			if parts := strings.SplitN(rel, "/", 3); len(parts) == 3 && strings.HasPrefix(parts[1], "g_") {
+				gridListing[parts[1]] = append(gridListing[parts[1]], filepath.Dir(parts[2])+"/")
+				return nil
+			}
 			listing = append(listing, filepath.Dir(rel)+"/")
 		}
 		return nil
 	})
 	sort.Strings(listing)
+	for _, l := range gridListing {
+		sort.Strings(l)
+	}
 	return listing
 }
 
@@ -409,6 +550,112 @@ func atomsToExprs(as []*atom) []*expr {
 	return out
 }
 
+// ---- window-grid expressions ------------------------------------------------------------------------
+
+type gwin struct {
+	S, E      time.Time
+	Midnights int  // UTC midnights strictly inside (S, E)
+	Extra     bool // a bound exists in the thorough tier only
+}
+
+// gridWindows: every ordered pair of grid instants, simplest first (fewest midnights inside, shortest,
+// earliest) - the order in which the minimiser looks for the representative of a failing class.
+func gridWindows() []gwin {
+	var ws []gwin
+	for i, s := range gridInstants {
+		for _, e := range gridInstants[i+1:] {
+			n := 0
+			for d := 1; d <= len(gridDays); d++ {
+				if m := gridDay(d); m.After(s) && m.Before(e) {
+					n++
+				}
+			}
+			ws = append(ws, gwin{s, e, n, gridExtra[s.Unix()] || gridExtra[e.Unix()]})
+		}
+	}
+	sort.SliceStable(ws, func(i, j int) bool {
+		a, b := ws[i], ws[j]
+		if a.Extra != b.Extra {
+			return b.Extra
+		}
+		if a.Midnights != b.Midnights {
+			return a.Midnights < b.Midnights
+		}
+		if da, db := a.E.Sub(a.S), b.E.Sub(b.S); da != db {
+			return da < db
+		}
+		return a.S.Before(b.S)
+	})
+	return ws
+}
+
+// offLit writes the instant as an RFC3339 literal with a fixed UTC offset (the literal's calendar date and
+// hour differ from the UTC partition the instant belongs to).
+func offLit(t time.Time, offHours int) lit {
+	s := t.In(time.FixedZone("", offHours*3600)).Format(time.RFC3339)
+	return qlit(s)
+}
+
+type gform struct {
+	Name string
+	Make func(s, e lit) *expr
+	Lit  func(t time.Time) lit
+}
+
+func tAtom(op string, l lit) *expr { return &expr{Kind: 'a', A: &atom{Col: "time", Op: op, L1: l}} }
+
+func plainLit(t time.Time) lit { return qlit(isoStr(t)) }
+
+func gridForms(full bool) []gform {
+	pair := func(lo, hi string) func(s, e lit) *expr {
+		return func(s, e lit) *expr { return &expr{Kind: '&', X: tAtom(lo, s), Y: tAtom(hi, e)} }
+	}
+	between := func(s, e lit) *expr { return &expr{Kind: 'a', A: &atom{Col: "time", Op: "BETWEEN", L1: s, L2: e}} }
+	off := func(h int) func(t time.Time) lit { return func(t time.Time) lit { return offLit(t, h) } }
+	f := []gform{
+		{"ge-lt", pair(">=", "<"), plainLit},
+		{"gt-le", pair(">", "<="), plainLit},
+		{"between", between, plainLit},
+		{"ge-lt+02:00", pair(">=", "<"), off(2)},
+		{"between-05:00", between, off(-5)},
+	}
+	if full {
+		f = append(f, gform{"gt-le-Z", pair(">", "<="), off(0)}, gform{"ge-le+02:00", pair(">=", "<="), off(2)},
+			gform{"gt-lt-05:00", pair(">", "<"), off(-5)})
+	}
+	return f
+}
+
+var (
+	gridCanon []*expr              // every grid WHERE of this tier, canonical order (form-major, then gridWindows order)
+	gridWinOf = map[string]*gwin{} // symbolic rendering -> window (ground truth, window-form test)
+)
+
+func buildGridExprs(full bool) {
+	ws := gridWindows()
+	for _, f := range gridForms(full) {
+		for i := range ws {
+			e := f.Make(f.Lit(ws[i].S), f.Lit(ws[i].E))
+			gridCanon = append(gridCanon, e)
+			gridWinOf[e.render("", true, true)] = &ws[i]
+		}
+	}
+}
+
+func gridWindowOf(e *expr) *gwin { return gridWinOf[e.render("", true, true)] }
+
+// gridExpected: ids the window selects in grid measurement m by construction of the fixture (no row sits on
+// a bound, so inclusive and exclusive comparison operators select the same rows).
+func gridExpected(m measurement, w *gwin) []int64 {
+	var ids []int64
+	for i, r := range gridRows {
+		if !r.T.Before(w.S) && r.T.Before(w.E) {
+			ids = append(ids, int64(m.IDBase+i))
+		}
+	}
+	return ids
+}
+
 // deepen: E(n+1) = E(n) + NOT E(n) + (E(n) AND E(n)) + (E(n) OR E(n)); returns only the NEW expressions.
 func deepen(prev []*expr) []*expr {
 	var out []*expr
@@ -585,16 +832,19 @@ func (w *worker) post(app *fiber.App, sqlText, header string) response {
 }
 
 type outcome struct {
-	NonTrivial bool     // the pruner changed the SQL that reaches DuckDB
-	PathSet    string   // canonical pruned path set (for distinct counting)
-	Kind       string   // "" = equal
-	Lost       []string // sorted distinct tags of rows only the unpruned run returned
-	Extra      []string // sorted distinct tags of rows only the pruned run returned
-	LostRows   []string
-	ExtraRows  []string
-	StatusP    int
-	StatusU    int
-	NRowsU     int
+	NonTrivial  bool     // the pruner changed the SQL that reaches DuckDB
+	PathSet     string   // canonical pruned path set (for distinct counting)
+	Kind        string   // "" = equal
+	Lost        []string // sorted distinct tags of rows only the unpruned run returned
+	Extra       []string // sorted distinct tags of rows only the pruned run returned
+	LostRows    []string
+	ExtraRows   []string
+	StatusP     int
+	StatusU     int
+	NRowsU      int
+	GT          int    // window grid, plain template: 1 = the unpruned run returned exactly the rows the fixture puts in the window, 2 = it did not
+	GTDetail    string // GT == 2: expected vs returned ids
+	LastDayFile bool   // window grid: the last calendar day holding a selected row is stored as a day-level file
 }
 
 var pathRe = regexp.MustCompile(`'([^']*\.parquet)'`)
@@ -630,6 +880,20 @@ func rowTags(rows []string, idFirst bool, fallback string) []string {
 		out = append(out, t)
 	}
 	sort.Strings(out)
+	return out
+}
+
+// rowIDs: first cell of every row as an integer (templates with IDFirst), in result order.
+func rowIDs(rows []string) []int64 {
+	var out []int64
+	for _, r := range rows {
+		var cells []json.RawMessage
+		var id int64 = -1
+		if json.Unmarshal([]byte(r), &cells) == nil && len(cells) > 0 {
+			json.Unmarshal(cells[0], &id)
+		}
+		out = append(out, id)
+	}
 	return out
 }
 
@@ -694,7 +958,23 @@ func (w *worker) evalRaw(c qcase) *outcome {
 		return o
 	}
 	if !ru.Success {
+		if measurements[c.M].Grid != "" && gridWindowOf(c.E) != nil {
+			o.GT, o.GTDetail = 2, "unpruned query failed: "+ru.Err
+		}
 		return o // both failed the same way
+	}
+	if gw := gridWindowOf(c.E); gw != nil && measurements[c.M].Grid != "" && c.T == 0 {
+		want := gridExpected(measurements[c.M], gw)
+		got := rowIDs(ru.Rows)
+		o.GT = 1
+		if fmt.Sprint(want) != fmt.Sprint(got) {
+			o.GT, o.GTDetail = 2, fmt.Sprintf("%s: fixture puts ids %v in the window, unpruned run returned %v", c.key(), want, got)
+		}
+		if len(want) > 0 {
+			last := gridRows[int(want[len(want)-1])-measurements[c.M].IDBase].T
+			di := int(last.Sub(gridDay(0)) / (24 * time.Hour))
+			o.LastDayFile = measurements[c.M].Grid[di] != 'H'
+		}
 	}
 	lost, extra := diffMultiset(ru.Rows, rp.Rows)
 	o.LostRows, o.ExtraRows = lost, extra
@@ -934,6 +1214,31 @@ func (w *worker) phaseB(c qcase, witness string) qcase {
 	return cur
 }
 
+// phaseBGrid: a failing window of the grid (plain template) is replaced by the first window form of the
+// canonical order (comparison form, then fewest midnights / shortest / earliest window) that still loses a
+// row of the same witness (grid day) on the first layout of the canonical layout order that does. The many
+// raw (window, form, layout) failures of one defect collapse into one class per lost day.
+func (w *worker) phaseBGrid(c qcase, witness string) qcase {
+	keep := keepFor(witness)
+	self := c.key()
+	for _, e := range gridCanon {
+		for m := gridFirst; m < len(measurements); m++ {
+			cand := qcase{c.T, m, e}
+			if cand.key() == self {
+				return c
+			}
+			if keep(w.eval(cand)) {
+				return cand
+			}
+		}
+	}
+	return c
+}
+
+func isGridWindowCase(c qcase) bool {
+	return c.T == 0 && measurements[c.M].Grid != "" && gridWindowOf(c.E) != nil
+}
+
 // whereClass abstracts a structurally minimal WHERE expression to the feature that makes it a class:
 //   - two-measurement template (the same WHERE is fine on the plain template): the predicate of one table
 //     is applied to the other one                                  -> "time-predicate-of-other-table"
@@ -1037,6 +1342,8 @@ func main() {
 
 	buildAnchors()
 	buildRelLits()
+	buildGrid(full)
+	buildGridExprs(full)
 	root := filepath.Join(scratch, "store")
 	must(os.MkdirAll(root, 0o755), "store")
 	listing := buildStore(root)
@@ -1057,7 +1364,7 @@ func main() {
 	// vacuity guard: the unpruned handler sees every fixture row of every measurement
 	for _, m := range measurements {
 		r := workers[0].post(workers[0].appU, "SELECT count(*) AS n FROM c18."+m.Name, "")
-		if !r.Success || len(r.Rows) != 1 || r.Rows[0] != fmt.Sprintf("[%d]", len(anchors)) {
+		if !r.Success || len(r.Rows) != 1 || r.Rows[0] != fmt.Sprintf("[%d]", len(rowsOf(m))) {
 			cleanup()
 			ev.Unbound(fmt.Sprintf("fixture of %s not fully visible: %+v", m.Name, r))
 		}
@@ -1103,6 +1410,31 @@ func main() {
 	} else {
 		add(tmplIndex("plain"), e2new, []int{0})
 	}
+	// window grid: every window form x every grid layout on the plain template; thorough also through the
+	// unordered, aggregate and header-database templates
+	nBase := len(cases)
+	gridTemplates := []int{tmplIndex("plain")}
+	if full {
+		gridTemplates = append(gridTemplates, tmplIndex("no-order"), tmplIndex("aggregate"), tmplIndex("header-db"))
+	}
+	var gridLayouts []int
+	for m := gridFirst; m < len(measurements); m++ {
+		gridLayouts = append(gridLayouts, m)
+	}
+	for i, ti := range gridTemplates {
+		if i == 0 {
+			add(ti, gridCanon, gridLayouts)
+			continue
+		}
+		var hc []int // the other templates: layouts without the M state
+		for _, m := range gridLayouts {
+			if !strings.Contains(measurements[m].Grid, "M") {
+				hc = append(hc, m)
+			}
+		}
+		add(ti, gridCanon, hc)
+	}
+	nGrid := len(cases) - nBase
 	seenKey := map[string]bool{}
 	uniq := cases[:0]
 	for _, c := range cases {
@@ -1120,13 +1452,15 @@ func main() {
 		o *outcome
 	}
 	var (
-		fmu        sync.Mutex
-		failures   []failure
-		next       int64 = -1
-		evaluated  int64
-		nontrivial int64
-		withTime   int64
-		stopped    int32
+		fmu                                        sync.Mutex
+		failures                                   []failure
+		next                                       int64 = -1
+		evaluated                                  int64
+		nontrivial                                 int64
+		withTime                                   int64
+		stopped                                    int32
+		gtOK, gtBad, gridNonEmpty, gridLastDayFile int64
+		gtFirstBad                                 atomic.Value
 	)
 	pathSets := sync.Map{}
 	samples := ev.NewSamples(6)
@@ -1157,6 +1491,20 @@ func main() {
 						samples.Add(map[string]any{"sql": s, "outcome": o.Kind, "rows_unpruned": o.NRowsU, "lost": o.Lost})
 					}
 				}
+				switch o.GT {
+				case 1:
+					atomic.AddInt64(&gtOK, 1)
+					if o.NRowsU > 0 {
+						atomic.AddInt64(&gridNonEmpty, 1)
+					}
+					if o.LastDayFile {
+						atomic.AddInt64(&gridLastDayFile, 1)
+					}
+				case 2:
+					if atomic.AddInt64(&gtBad, 1) == 1 {
+						gtFirstBad.Store(o.GTDetail)
+					}
+				}
 				if o.Kind != "" {
 					fmu.Lock()
 					failures = append(failures, failure{c, o})
@@ -1167,6 +1515,12 @@ func main() {
 	}
 	wg.Wait()
 	exhaustive := stopped == 0
+	if gtBad > 0 {
+		// the reference run itself does not select the rows the fixture puts in a window: the grid would be
+		// comparing something else than intended (literal interpretation, session time zone)
+		cleanup()
+		ev.Unbound(fmt.Sprintf("window grid: %d unpruned results differ from the fixture's ground truth, first: %v", gtBad, gtFirstBad.Load()))
+	}
 
 	// ---- phase 2: minimise every raw difference once per witness tag, collapse into class signatures
 	sort.Slice(failures, func(i, j int) bool { return failures[i].c.key() < failures[j].c.key() })
@@ -1233,7 +1587,7 @@ func main() {
 	// witnesses from the plain template's own lost rows
 	var expanded []job
 	for _, mj := range minimal {
-		if _, single := whereClass(mj.c); single && (mj.witness == "" || mj.witness == "row") {
+		if _, single := whereClass(mj.c); (single || isGridWindowCase(mj.c)) && (mj.witness == "" || mj.witness == "row") {
 			if o := w0.eval(mj.c); len(o.Lost) > 0 {
 				for _, t := range o.Lost {
 					expanded = append(expanded, job{mj.c, t})
@@ -1247,7 +1601,13 @@ func main() {
 		cc := mj.c
 		class, single := whereClass(cc)
 		wt := ""
-		if single && mj.witness != "" && mj.witness != "row" {
+		if isGridWindowCase(cc) {
+			if mj.witness != "" && mj.witness != "row" {
+				cc = w0.phaseBGrid(cc, mj.witness)
+				wt = mj.witness
+			}
+			class = sigExpr(cc.E, "", true)
+		} else if single && mj.witness != "" && mj.witness != "row" {
 			cc = w0.phaseB(cc, mj.witness)
 			wt = mj.witness
 			class = sigExpr(cc.E, "", true)
@@ -1263,6 +1623,13 @@ func main() {
 		}
 		sig := signature(cc, o1, class, wt)
 		sqlText, header := cc.sqlText()
+		dirs := listing
+		if g := measurements[cc.M]; g.Grid != "" {
+			dirs = nil
+			for _, d := range gridListing[g.Name] {
+				dirs = append(dirs, dbName+"/"+g.Name+"/"+d)
+			}
+		}
 		lim := func(r []string) []string {
 			if len(r) > 12 {
 				return r[:12]
@@ -1272,7 +1639,7 @@ func main() {
 		run.Violate(sig,
 			fmt.Sprintf("pruned and unpruned execution differ (%s) for WHERE %s: unpruned returns %d rows; only unpruned: %v; only pruned: %v",
 				o1.Kind, cc.E.render(templates[cc.T].Prefix, true, true), o1.NRowsU, o1.Lost, o1.Extra),
-			map[string]any{"sql": sqlText, "x-arc-database": header, "now_utc": runNow.Format(time.RFC3339), "store_dirs": listing,
+			map[string]any{"sql": sqlText, "x-arc-database": header, "now_utc": runNow.Format(time.RFC3339), "store_dirs": dirs,
 				"where_symbolic":     cc.E.render(templates[cc.T].Prefix, true, true),
 				"pruned_sql":         w0.hP.VerifTransformedSQL(context.Background(), sqlText, header),
 				"rows_only_unpruned": lim(o1.LostRows), "rows_only_pruned": lim(o1.ExtraRows),
@@ -1299,10 +1666,56 @@ func main() {
 	run.Coverage["exhaustive"] = exhaustive
 	run.Coverage["cases_enumerated"] = len(cases)
 	run.Coverage["templates"] = len(templates)
+	gridLayoutNames := []string{}
+	for _, m := range measurements[gridFirst:] {
+		gridLayoutNames = append(gridLayoutNames, m.Grid)
+	}
+	todNames := []string{}
+	tods := gridToD
+	if full {
+		tods = append(append([]time.Duration{}, gridToD...), gridToDThorough...)
+	}
+	for _, d := range tods {
+		todNames = append(todNames, fmt.Sprintf("%02d:%02d", int(d.Hours()), int(d.Minutes())%60))
+	}
+	formNames := []string{}
+	for _, f := range gridForms(full) {
+		formNames = append(formNames, f.Name)
+	}
+	tmplNames := []string{}
+	for _, ti := range gridTemplates {
+		tmplNames = append(tmplNames, templates[ti].Name)
+	}
+	byMidnights := map[string]int{}
+	todRel := map[string]int{}
+	for _, gw := range gridWindows() {
+		byMidnights[fmt.Sprint(gw.Midnights)]++
+		if gw.S.Format("2006-01-02") != gw.E.Format("2006-01-02") {
+			sd, ed := gw.S.Sub(gw.S.Truncate(24*time.Hour)), gw.E.Sub(gw.E.Truncate(24*time.Hour))
+			switch {
+			case ed < sd:
+				todRel["end_tod_before_start_tod"]++
+			case ed == sd:
+				todRel["end_tod_equals_start_tod"]++
+			default:
+				todRel["end_tod_after_start_tod"]++
+			}
+		}
+	}
+	run.Coverage["window_grid"] = map[string]any{
+		"days": append(append([]string{}, gridDays...), gridEndDay+" (00:00 as an end only)"), "times_of_day": todNames,
+		"instants": len(gridInstants), "windows": len(gridWindows()), "windows_by_midnights_inside": byMidnights,
+		"windows_ending_on_a_later_day": todRel, "forms": formNames, "templates": tmplNames,
+		"day_states": "H hour directories, C day-level compacted file, M day-level file + hour directory " + gridLeftoverHour + " (thorough)",
+		"layouts":    gridLayoutNames, "rows_per_measurement": len(gridRows), "where_expressions": len(gridCanon), "cases": nGrid,
+		"unpruned_result_equals_fixture_ground_truth": int(gtOK), "cases_selecting_rows": int(gridNonEmpty),
+		"cases_whose_last_selected_day_is_a_day_file": int(gridLastDayFile),
+		"partition_dirs_example":                      map[string][]string{measurements[gridFirst+2].Name: gridListing[measurements[gridFirst+2].Name]},
+	}
 	run.Coverage["layouts"] = []string{"cpu: hour directories", "mem: compacted day files", "disk: day files + one un-compacted hour directory + hour directories for now-relative days"}
 	run.Coverage["store_dirs"] = listing
 	run.Coverage["alphabet_sizes"] = map[string]int{"depth0_atoms": len(e0), "depth1_atoms": len(a1), "depth1_new_exprs": len(e1new), "depth2_atoms": len(a2), "depth2_new_exprs": len(e2new)}
-	run.Coverage["rule"] = "cases = templates x layouts x WHERE expressions; WHERE = every atom of the depth-0 alphabet (5 comparison ops x literals {date-only, second precision, Z, +02:00, run-relative, NOW()/CURRENT_TIMESTAMP +- INTERVAL} on time, BETWEEN pairs, the same on string columns uptime/event_time, host/v atoms), plus NOT x / (x AND y) / (x OR y) closed once over alphabet1 for every template and twice (depth 2, parenthesised) over alphabet2 for the plain template (thorough: all three layouts, and the join template). A case is non-trivial when the enabled pruner changes the SQL sent to DuckDB (only those are executed through both HTTP handlers; byte-identical SQL on a static store is equal by construction); distinct_nontrivial = distinct pruned path sets."
+	run.Coverage["rule"] = "cases = templates x layouts x WHERE expressions; WHERE = every atom of the depth-0 alphabet (5 comparison ops x literals {date-only, second precision, Z, +02:00, run-relative, NOW()/CURRENT_TIMESTAMP +- INTERVAL} on time, BETWEEN pairs, the same on string columns uptime/event_time, host/v atoms), plus NOT x / (x AND y) / (x OR y) closed once over alphabet1 for every template and twice (depth 2, parenthesised) over alphabet2 for the plain template (thorough: all three layouts, and the join template); plus the window grid: every ordered pair of the instants {3 consecutive days x times of day 00:00, 03:30, 22:00 (thorough: + 12:00)} + {day 4 00:00} as a window (inside a day, over 1-3 midnights, end time-of-day before/equal/after the start's, bounds exactly at 00:00) x comparison forms (>= <, > <=, BETWEEN, +02:00 and -05:00 offset literals; thorough 3 more) x every assignment of {hour directories, day-level compacted file (thorough: + day file with a left-over hour directory)} to the three days, plain template (thorough: + no-order, aggregate, header-db on the layouts without a left-over hour directory); for the grid the unpruned result is also compared with the fixture's ground truth. A case is non-trivial when the enabled pruner changes the SQL sent to DuckDB (only those are executed through both HTTP handlers; byte-identical SQL on a static store is equal by construction); distinct_nontrivial = distinct pruned path sets."
 	run.Coverage["samples"] = samples.List()
 	run.Assume("LocalBackend only (S3/Azure path filtering is not exercised)")
 	run.Assume("session time zone UTC (DuckDB and Go); rows are >= 22 h away from every NOW()-relative boundary and from the pruner's implicit now+1d end")
